@@ -201,7 +201,7 @@ func cmdDump(args []string) {
 			}
 		}
 	}
-	for _, u := range p.theoremUnits() {
+	for _, u := range append(p.callRuleUnits(), p.theoremUnits()...) {
 		if *fnPat != "" && !strings.Contains("theorem "+u.thName, *fnPat) {
 			continue
 		}
